@@ -815,3 +815,34 @@ Proof.
     + split; [intros _; exact E | reflexivity].
     + split; [discriminate|]. intros X. rewrite X in E. exfalso. exact (Qclt_not_eq _ _ E eq_refl).
 Qed.
+
+(** * The mode [autoconvert_offset_to_baseunit] does not touch operand units *)
+Lemma validate_extract_mode_off r u : validate_extract_mode false r u = validate_extract r u.
+Proof.
+  unfold validate_extract_mode, validate_extract. destruct (nonmult_list r u) as [l|e]; simpl; [|reflexivity].
+  destruct l as [|[k e] [|? ?]]; try reflexivity. rewrite andb_true_r. reflexivity.
+Qed.
+Theorem validate_extract_mode_opnd ac r u d s o f :
+  opnd r u d s o f → validate_extract_mode ac r u = validate_extract r u.
+Proof.
+  intros H.
+  assert (V : ∃ x, validate_extract r u = Ok x).
+  { destruct H as [(_ & _ & [_ Hv _ _])|[_ (k & df & Hv & _) _ _]]; eauto. }
+  destruct V as [x V]. revert V. unfold validate_extract_mode, validate_extract.
+  destruct (nonmult_list r u) as [l|e]; simpl; [|reflexivity].
+  destruct l as [|[k e] [|? ?]]; try reflexivity.
+  destruct (negb (bool_decide (e = 1%Qc))); [reflexivity|].
+  destruct (Nat.ltb 1 (size u)); [discriminate | reflexivity].
+Qed.
+(** [_ok_for_muldiv] is not a substitute for "multiplicative": with the flag set it accepts a single
+    offset unit, whose zero is [o·f ≠ 0] in root units *)
+Theorem ok_for_muldiv_offs r u d s o f m :
+  offs_unit r u d s o f → size u = 1%nat → ok_for_muldiv true r (Qty m u) = Ok true ∧ q_is_mult r (Qty m u) = Ok false.
+Proof.
+  intros H Hs. split; [|eapply q_is_mult_offs; exact H].
+  destruct H as [_ (k & df & Hv & _) _ _]. unfold ok_for_muldiv. simpl q_u.
+  pose proof Hv as Hv'. unfold validate_extract in Hv'.
+  destruct (nonmult_list r u) as [l|e]; simpl in *; [|discriminate].
+  destruct l as [|[k' e] [|? ?]]; try discriminate.
+  destruct (bool_decide (e = 1%Qc)); simpl in *; [|discriminate]. rewrite Hs. reflexivity.
+Qed.
